@@ -6,6 +6,8 @@ LEAN_EXES = ["wire"]
 HARNESS_BINS = ["wire", "mux", "stream"]
 THEOREMS = [
     "Remoc.Wire.decode_encode",
+    "Remoc.Wire.decCfg_minimums",
+    "Remoc.Wire.decoded_hello_minimums",
     "Remoc.Wire.encode_injective",
     "Remoc.Wire.idless_accepted",
     "Remoc.Wire.no_ids_to_old_peer",
